@@ -59,6 +59,10 @@ pub trait Kind {
     fn is_unique(&self) -> bool {
         self.get() == 1
     }
+
+    /// Verification hook: forces the stored counter (shares minus one).
+    #[cfg(hipstr_verif)]
+    fn verif_force(&self, _stored: usize) {}
 }
 
 impl Kind for Unique {
@@ -114,6 +118,11 @@ impl Kind for Rc {
         // the count is strictly less than `usize::MAX`
         self.0.get() + 1
     }
+
+    #[cfg(hipstr_verif)]
+    fn verif_force(&self, stored: usize) {
+        self.0.set(stored);
+    }
 }
 
 #[cfg(target_has_atomic = "ptr")]
@@ -166,6 +175,11 @@ impl Kind for Arc {
         } else {
             false
         }
+    }
+
+    #[cfg(hipstr_verif)]
+    fn verif_force(&self, stored: usize) {
+        self.0.store(stored, Ordering::SeqCst);
     }
 }
 
@@ -316,6 +330,24 @@ where
 
     pub(crate) fn incr(&self) -> UpdateResult {
         self.inner().count.incr()
+    }
+
+    /// Verification hook: forces the stored counter (shares minus one).
+    #[cfg(hipstr_verif)]
+    pub fn verif_force_count(&self, stored: usize) {
+        self.inner().count.verif_force(stored);
+    }
+
+    /// Verification hook: the stored counter plus one.
+    #[cfg(hipstr_verif)]
+    pub fn verif_count(&self) -> usize {
+        self.inner().count.get()
+    }
+
+    /// Verification hook: address of the inner cell.
+    #[cfg(hipstr_verif)]
+    pub fn verif_addr(&self) -> usize {
+        self.0.as_ptr() as usize
     }
 }
 
